@@ -529,6 +529,19 @@ func sprintf(fr *frame, format value, args []value, strict bool) value {
 			flags += string(f[k])
 			k++
 		}
+		// explicit argument index: %[n]verb
+		if k < len(f) && f[k] == '[' {
+			j := strings.IndexByte(f[k:], ']')
+			if j < 1 {
+				panic(unsupported{"fmt: bad argument index in " + f})
+			}
+			n, err := strconv.Atoi(f[k+1 : k+j])
+			if err != nil || n < 1 {
+				panic(unsupported{"fmt: bad argument index in " + f})
+			}
+			argi = n - 1
+			k += j + 1
+		}
 		if k >= len(f) {
 			break
 		}
